@@ -3,7 +3,8 @@
    datatype/*.go), tied to the code by the correspondence run of tools/props/C01.py.  Statements only. *)
 From Coq Require Import ZArith List Bool.
 From GCNP Require Import base.GoInt base.Bytes base.Codec gen.Constants_gen model.Prim model.DataType model.MsgTypes
-  model.Frame model.MsgCodec model.MsgValid model.FrameValid proofs.FrameProofs proofs.MsgCodecProofs proofs.FrameFinal.
+  model.Frame model.MsgCodec model.MsgValid model.FrameValid proofs.FrameProofs proofs.MsgCodecProofs proofs.FrameFinal
+  gen.Flags_gen model.MsgRequests model.MsgResults proofs.FlagsGenAgree.
 Import ListNotations.
 Open Scope Z_scope.
 
@@ -71,3 +72,16 @@ Example C01_nonvacuous :
               | _ => false end
    | Err => false end) = true.
 Proof. vm_compute. repeat split; reflexivity. Qed.
+
+(* the flag words that drive both writer and reader (QueryOptions/Batch/Prepare/VariablesMetadata/RowsMetadata .Flags())
+   are REGENERATED from message/*.go on every run (gen/Flags_gen.v, go2coq unit "flags"); for every record value the
+   regenerated function returns what the definition used by the round-trip theorems above returns (Err = the nil-column
+   panic of haveSameTable, on both sides) *)
+Theorem C01_flags_regenerated_agree :
+  (forall o, QueryOptions_Flags_gen o = Ok (QueryOptions_Flags o)) /\
+  (forall m, Batch_Flags_gen m = Ok (Batch_Flags m)) /\
+  (forall m, Prepare_Flags_gen m = Ok (Prepare_Flags m)) /\
+  (forall m, VariablesMetadata_Flags_gen m = VariablesMetadata_Flags m) /\
+  (forall m, RowsMetadata_Flags_gen m = RowsMetadata_Flags m).
+Proof. exact flags_regenerated_agree. Qed.
+Print Assumptions C01_flags_regenerated_agree.
